@@ -160,3 +160,173 @@ Theorem C04_example_double_far :
 Proof. exact ex_double_far_pointer. Qed.
 Theorem C04_example_place_pre : place_pre ex_before 0 8 1 0 4294967296.
 Proof. exact ex_place_pre. Qed.
+
+(* ------------------------------------------------------------------ read back over the object table *)
+(* For the states the pointer-level invariant [hinv] describes (reachable states of the C05
+   sub-language, coq/Core/HeapOps.v), the message is an abstract store: table object -> bytes
+   of its region, pointer slot -> resolved target. *)
+From CV Require Import Core.HeapProofs Core.HeapInv.
+
+(* [T16] a data setter (a write inside one table object, beside its pointer slots): the written
+   bytes are read back; every byte outside the written range, in every segment, is unchanged -
+   so is the data of every other object -; every pointer slot and the root resolve as before *)
+Theorem C04_read_back_data : forall m objs pads m' h addr bs,
+  hinv m objs pads -> In h objs -> 0 <= p_seg h ->
+  wrote m m' (p_seg h) addr bs ->
+  p_off h <= addr -> addr + zlen bs <= obj_start h + r_size (obj_reg h) ->
+  (forall q, In q (slots h) -> addr + zlen bs <= snd q \/ snd q + 8 <= addr) ->
+  slice (mem m' (p_seg h)) addr (zlen bs) = Ok bs /\
+  keeps m m' (fun i k => i = p_seg h /\ addr <= k < addr + zlen bs) /\
+  (forall q, In q ((0, 0) :: flat_map slots objs) ->
+     resolve_ptr (bm_data m') (fst q) (snd q) = resolve_ptr (bm_data m) (fst q) (snd q)).
+Proof. exact data_write_read_back. Qed.
+Print Assumptions C04_read_back_data.
+
+(* [T17] a pointer setter without copy (any slot of any table object or the root, any table
+   object as target, all three placements): the slot resolves to exactly the target object,
+   through the pads just allocated; every byte of the old segments except the slot word is
+   unchanged (all object data); every other pointer slot resolves as before *)
+Theorem C04_read_back_ptr : forall m objs pads w q ht raw w',
+  w_dst w = m -> hinv m objs pads ->
+  In q ((0, 0) :: flat_map slots objs) -> In ht objs ->
+  (p_kind ht = KStruct -> os_isZero (p_size ht) = false) ->
+  raw_of ht = Ok raw ->
+  place w (fst q) (snd q) (p_seg ht) (obj_start ht) raw = Ok w' ->
+  nsegs (w_dst w') < 4294967296 ->
+  exists pads', hinv (w_dst w') objs (pads ++ pads') /\
+    resolve_ptr (bm_data (w_dst w')) (fst q) (snd q) = (tgt_of ht, pads' ++ [obj_reg ht]) /\
+    keeps m (w_dst w') (Rword (fst q) (snd q)) /\
+    (forall q', In q' ((0, 0) :: flat_map slots objs) -> ~ (fst q' = fst q /\ snd q' = snd q) ->
+       resolve_ptr (bm_data (w_dst w')) (fst q') (snd q') = resolve_ptr (bm_data m) (fst q') (snd q')) /\
+    placed (bm_data (w_dst w')) (fst q) (snd q) (p_seg ht) (obj_start ht) raw (fun i => zlen (mem m i)) pads'.
+Proof. exact hinv_place_full. Qed.
+Print Assumptions C04_read_back_ptr.
+
+From CV Require Import Core.Reader Core.ReadBridge.
+
+(* [T18] ... and the reader model hands back the object: after the pointer setter,
+   Segment.readPtr at the slot returns the handle of exactly the table object that was set (a
+   struct, a list of any kind incl. composite lists through their tag word), with the depth
+   limit one less - for every read limit / depth limit for which it returns a handle at all *)
+Theorem C04_read_back_handle : forall m objs pads w q ht raw w' strict rl depth p rl',
+  w_dst w = m -> hinv m objs pads ->
+  In q ((0, 0) :: flat_map slots objs) -> In ht objs ->
+  (p_kind ht = KStruct -> os_isZero (p_size ht) = false) ->
+  raw_of ht = Ok raw ->
+  place w (fst q) (snd q) (p_seg ht) (obj_start ht) raw = Ok w' ->
+  nsegs (w_dst w') < 4294967296 ->
+  readPtr strict (bm_data (w_dst w')) rl (fst q) (nth (Z.to_nat (fst q)) (bm_data (w_dst w')) []) (snd q) depth = (Ok p, rl') ->
+  p = handle_of ht depth.
+Proof. exact read_after_place. Qed.
+Print Assumptions C04_read_back_handle.
+
+(* [T19] in every state the invariant describes (any later time): Segment.readPtr at any pointer
+   slot of any table object or at the root returns the null handle, the inline empty struct, a
+   handle of a table object, or a capability handle - never anything else *)
+Theorem C04_read_slot : forall strict m objs pads q rl depth p rl',
+  hinv m objs pads -> In q ((0, 0) :: flat_map slots objs) ->
+  readPtr strict (bm_data m) rl (fst q) (nth (Z.to_nat (fst q)) (bm_data m) []) (snd q) depth = (Ok p, rl') ->
+  p = nullPtr \/ p = empty_handle q depth \/ (exists h, In h objs /\ p = handle_of h depth) \/
+  (exists idx, 0 <= idx < 4294967296 /\ p = mkPtr true (fst q) 0 idx (mkOS 0 0) 0 KIface false false false).
+Proof. exact read_slot. Qed.
+Print Assumptions C04_read_slot.
+
+(* ------------------------------------------------------------------ history level *)
+From CV Require Import Core.HeapHistory.
+
+(* [T20] the frame part of the invariant: a step whose write set lies inside one table entry (the
+   root word or one object - every setter's does) leaves every other object, the root word and
+   every landing pad byte for byte unchanged *)
+Theorem C04_other_regions_unchanged : forall m objs pads m' R j,
+  hinv m objs pads -> keeps m m' R -> (j < length (regsO objs))%nat -> inside (nth j (regsO objs) root_reg) R ->
+  (forall j', j' <> j -> (j' < length (regsO objs))%nat ->
+     reg_bytes m' (nth j' (regsO objs) root_reg) = reg_bytes m (nth j' (regsO objs) root_reg)) /\
+  (forall p, In p pads -> reg_bytes m' p = reg_bytes m p).
+Proof. exact hinv_other_regions. Qed.
+Print Assumptions C04_other_regions_unchanged.
+
+(* [T21] over any run (a chain of steps with frames; every op has one: data setters T3 = exactly
+   the field, writePtr = the pointer word, copyStruct = the destination's sections, allocation =
+   nothing): a byte no step touches keeps its value *)
+Theorem C04_untouched_byte : forall m Rs m' i k,
+  chain m Rs m' -> 0 <= i -> 0 <= k < zlen (mem m i) -> Forall (fun R : Z -> Z -> Prop => ~ R i k) Rs ->
+  nth (Z.to_nat k) (mem m' i) 0 = nth (Z.to_nat k) (mem m i) 0.
+Proof. exact chain_untouched. Qed.
+Print Assumptions C04_untouched_byte.
+
+(* [T22] a data field read back returns the value of the LAST setter on it: what a setter wrote
+   is what is read after any number of later steps none of which touches the field (setters on
+   other fields or objects, pointer setters, copies, allocations) *)
+Theorem C04_last_write_wins : forall m0 m1 Rs m' sid addr bs,
+  wrote m0 m1 sid addr bs -> 0 <= sid -> zlen (mem m0 sid) < 4294967296 -> zlen (mem m' sid) < 4294967296 ->
+  chain m1 Rs m' ->
+  Forall (fun R : Z -> Z -> Prop => forall k, addr <= k < addr + zlen bs -> ~ R sid k) Rs ->
+  slice (mem m' sid) addr (zlen bs) = Ok bs.
+Proof. exact last_write_wins. Qed.
+Print Assumptions C04_last_write_wins.
+
+(* [T23] a pointer slot read back returns the object of the LAST pointer setter on it: the words
+   stored for [ht] at slot [q], any number of later steps none of which touches the slot word
+   or its landing pads, then Segment.readPtr at [q] returns the handle of [ht] *)
+Theorem C04_last_pointer_wins : forall m1 Rs m' objs' pads' q ht raw oldlen ps strict rl depth p rl',
+  placed (bm_data m1) (fst q) (snd q) (p_seg ht) (obj_start ht) raw oldlen ps ->
+  chain m1 Rs m' ->
+  Forall (fun R : Z -> Z -> Prop => (forall k, snd q <= k < snd q + 8 -> ~ R (fst q) k) /\
+            (forall r, In r ps -> forall k, r_start r <= k < r_start r + r_size r -> ~ R (r_seg r) k)) Rs ->
+  hinv m' objs' pads' -> In ht objs' -> incl ps pads' -> snd q mod 8 = 0 ->
+  raw_of ht = Ok raw -> (p_kind ht = KStruct -> os_isZero (p_size ht) = false) ->
+  readPtr strict (bm_data m') rl (fst q) (nth (Z.to_nat (fst q)) (bm_data m') []) (snd q) depth = (Ok p, rl') ->
+  p = handle_of ht depth.
+Proof. exact last_pointer_wins. Qed.
+Print Assumptions C04_last_pointer_wins.
+
+(* ------------------------------------------------------------------ history level, for every program *)
+From CV Require Import Core.BuildOps Core.BuildInv Core.HeapOps Core.HeapSteps Core.HeapFrames.
+
+(* [T24] every op of the interpreter has the frame [touch state op] (a function of the state
+   before the step): data setters exactly their field, Struct.SetPtr / PointerList.Set / SetRoot
+   the pointer word (whatever they copy goes to fresh storage), List.SetStruct / CopyFrom the
+   destination struct's own sections, every other op nothing *)
+Theorem C04_step_frame : forall e st objs pads o st' out,
+  sinv st objs pads -> spool st -> sub_op o = true -> dst_only st o -> bstep e st o = (Some st', out) ->
+  keeps (w_dst (st_w st)) (w_dst (st_w st')) (touch st o) /\ nsegs (w_dst (st_w st)) <= nsegs (w_dst (st_w st')).
+Proof. exact bstep_frame. Qed.
+Print Assumptions C04_step_frame.
+
+(* [T25] hence every run of every program is a chain of these frames *)
+Theorem C04_run_chain : forall e, cfg_strict (e_cfgs e) = true -> forall ops st objs pads,
+  sinv st objs pads -> spool st -> sub_prog ops = true -> dst_run e st ops -> Forall seg_bound (bstates e st ops) ->
+  chain (w_dst (st_w st)) (touches e st ops) (w_dst (st_w (final e st ops))).
+Proof. exact brun_chain. Qed.
+Print Assumptions C04_run_chain.
+
+(* [T26] history level, for every program of the interpreter: what a data setter wrote into a
+   field is what is read back at the end of any program that follows, provided no later op
+   touches the field (per op: its [touch] set) - setters on other fields or objects, pointer
+   setters with all their copies, constructors, capabilities, reads, reopen do not change it *)
+Theorem C04_run_last_write_wins : forall e m0 st1 objs pads ops sid addr bs,
+  cfg_strict (e_cfgs e) = true ->
+  wrote m0 (w_dst (st_w st1)) sid addr bs -> 0 <= sid -> zlen (mem m0 sid) < 4294967296 ->
+  sinv st1 objs pads -> spool st1 -> sub_prog ops = true -> dst_run e st1 ops -> Forall seg_bound (bstates e st1 ops) ->
+  Forall (fun R : Z -> Z -> Prop => forall k, addr <= k < addr + zlen bs -> ~ R sid k) (touches e st1 ops) ->
+  slice (mem (w_dst (st_w (final e st1 ops))) sid) addr (zlen bs) = Ok bs.
+Proof. exact run_last_write_wins. Qed.
+Print Assumptions C04_run_last_write_wins.
+
+(* [T27] history level, for every program of the interpreter, pointer slots: the words a pointer
+   setter stored for table object [ht] at slot [q], then any program none of whose ops touches
+   the slot word or its landing pads; at the end Segment.readPtr at [q] returns the handle of
+   [ht] (the tables only grow along the run, so [ht] and the pads are still table entries) *)
+Theorem C04_run_last_pointer_wins : forall e st1 objs pads ops q ht raw oldlen ps strict rl depth p rl',
+  cfg_strict (e_cfgs e) = true ->
+  sinv st1 objs pads -> spool st1 -> sub_prog ops = true -> dst_run e st1 ops -> Forall seg_bound (bstates e st1 ops) ->
+  placed (bm_data (w_dst (st_w st1))) (fst q) (snd q) (p_seg ht) (obj_start ht) raw oldlen ps ->
+  In ht objs -> incl ps pads -> snd q mod 8 = 0 ->
+  raw_of ht = Ok raw -> (p_kind ht = KStruct -> os_isZero (p_size ht) = false) ->
+  Forall (fun R : Z -> Z -> Prop => (forall k, snd q <= k < snd q + 8 -> ~ R (fst q) k) /\
+            (forall r, In r ps -> forall k, r_start r <= k < r_start r + r_size r -> ~ R (r_seg r) k)) (touches e st1 ops) ->
+  let m' := w_dst (st_w (final e st1 ops)) in
+  readPtr strict (bm_data m') rl (fst q) (nth (Z.to_nat (fst q)) (bm_data m') []) (snd q) depth = (Ok p, rl') ->
+  p = handle_of ht depth.
+Proof. exact run_last_pointer_wins. Qed.
+Print Assumptions C04_run_last_pointer_wins.
